@@ -219,15 +219,15 @@ pub fn generate(rng: &mut Rng, thorough: bool) -> Vec<Case> {
         cs.push(Case::new(104, vec![vec![rng.next()]], "try_from-random"));
     }
     // 107: exhaustive ranges
-    let top: u64 = if thorough { 1 << 22 } else { 1 << 16 };
-    let step: u64 = 1 << 13;
+    let top: u64 = if thorough { 1 << 22 } else { 1 << 15 };
+    let step: u64 = if thorough { 1 << 13 } else { 1 << 12 };
     let mut lo = 0;
     while lo < top {
         cs.push(Case::new(107, vec![vec![lo, lo + step]], "exhaustive-range"));
         lo += step;
     }
-    for base in [(1u64 << 30) - 4096, (1 << 14) - 100, MAXV - 8191] {
-        cs.push(Case::new(107, vec![vec![base, base + 8192]], "exhaustive-range-boundary"));
+    for base in [(1u64 << 30) - 2048, (1 << 14) - 100, MAXV - if thorough { 8191 } else { 4095 }] {
+        cs.push(Case::new(107, vec![vec![base, base + if thorough { 8192 } else { 4096 }]], "exhaustive-range-boundary"));
     }
     cs
 }
